@@ -567,9 +567,13 @@ func repeat(arr *Value, times int64) *Value {
 // unequal; dicts are equal when they have the same keys with equal values
 // (GUIDE "逻辑算符" ==; by code ValueEqual types.go:1644-1710).
 func (in *Interp) equal(a, b *Value, depth int) bool {
-	if depth > 64 {
-		refuse("equality on a very deep or cyclic value")
-	}
+	return in.equalRec(a, b, map[[2]any]int{})
+}
+
+// equalRec: state 1 = this pair of containers is being compared further up (the values
+// contain themselves: refused, the implementation recurses without end), 2 = found equal.
+func (in *Interp) equalRec(a, b *Value, st map[[2]any]int) bool {
+	in.tick()
 	if a.K != b.K {
 		if a.K == KInt && b.K == KFlt {
 			return float64(a.I) == b.F
@@ -597,11 +601,21 @@ func (in *Interp) equal(a, b *Value, depth int) bool {
 		}
 		needOrder(a, "equality")
 		needOrder(b, "equality")
+		k := [2]any{a.Arr, b.Arr}
+		switch st[k] {
+		case 1:
+			refuse("equality of self-containing values")
+		case 2:
+			return true
+		}
+		st[k] = 1
 		for i := range a.Arr.List {
-			if !in.equal(a.Arr.List[i], b.Arr.List[i], depth+1) {
+			if !in.equalRec(a.Arr.List[i], b.Arr.List[i], st) {
+				delete(st, k)
 				return false
 			}
 		}
+		st[k] = 2
 		return true
 	case KDict:
 		if a.Dict == b.Dict {
@@ -610,14 +624,23 @@ func (in *Interp) equal(a, b *Value, depth int) bool {
 		if len(a.Dict.M) != len(b.Dict.M) {
 			return false
 		}
-		// all keys must be compared even after a mismatch is known? No: equality has no
-		// side effects, the answer does not depend on the order.
-		for k, v := range a.Dict.M {
-			w, ok := b.Dict.M[k]
-			if !ok || !in.equal(v, w, depth+1) {
+		k := [2]any{a.Dict, b.Dict}
+		switch st[k] {
+		case 1:
+			refuse("equality of self-containing values")
+		case 2:
+			return true
+		}
+		st[k] = 1
+		// equality has no side effects, so the answer does not depend on the order of the keys
+		for key, v := range a.Dict.M {
+			w, ok := b.Dict.M[key]
+			if !ok || !in.equalRec(v, w, st) {
+				delete(st, k)
 				return false
 			}
 		}
+		st[k] = 2
 		return true
 	case KFunc:
 		if a.Fn == b.Fn {
